@@ -492,3 +492,19 @@ Fixpoint listen_states (E : env) (d : dstate) (ins : list input) : list bstate :
 Definition life_states (E : env) (h0 : N) (ins : list input) : list bstate :=
   (init_state h0, ins) :: starts_states E SFUEL (boot h0 [] 0) ins ++
   listen_states E (fst (starts E SFUEL (boot h0 [] 0))) ins.
+
+(* ---------- any number of crashes ---------- *)
+(* the live phase of a life that booted in state d is plain *)
+Definition live_good (E : env) (d : dstate) (ins : list input) : bool :=
+  starts_good E SFUEL d && listen_good E (fst (starts E SFUEL d)) ins.
+
+(* the worlds a validator process can find itself started in: (height to start the state machine at, content
+   of the log directory, effects of all earlier lives of this validator).  Initially an empty log; then any
+   life with a plain live phase, killed after any number k of its effects (also during recovery), leaves the
+   world in which the next life starts. *)
+Inductive Worlds (E : env) : N -> list wrec -> list effect -> Prop :=
+| world_init : forall h0, 1 <= h0 -> Worlds E h0 [] []
+| world_next : forall H D EH n ins k,
+    Worlds E H D EH -> live_good E (fst (recover E H D n)) ins = true ->
+    let effs := flat (snd (lifetime E H D n ins)) in
+    Worlds E (resume_height H (firstn k effs)) (crash_at k effs D) (EH ++ firstn k effs).
